@@ -1,20 +1,348 @@
 import CpModel.SessionStore
+import CpProofs.C14Lemmas
 /-!
   C14 — session ids are never adopted from clients; data persists until expiry.
+
+  All theorems are about `CpModel.SessionStore` (the transcription of `cherrypy.lib.sessions` behind
+  the sessions tool) and quantify over *every* state of the store — hence over every history that can
+  lead to it — every configuration (backend, timeout, id source), every cookie and every handler
+  script; the history-level statements are inductions over the operation list.
 -/
 namespace CpProofs.C14
 open CpModel.SessionStore
 
-theorem lookup_erase_self (s : Store) (i : Id) : lookup (erase s i) i = none := by
-  induction s with
-  | nil => rfl
-  | cons p ps ih =>
-    obtain ⟨j, r⟩ := p
-    simp only [erase]
+/-! ### generic machinery: one request -/
+
+theorem newId_spec {cfg : Cfg} {st st' : St} {i : Id} (h : newId cfg st = some (i, st')) :
+    has st.store i = false ∧ st'.store = st.store ∧ st'.now = st.now ∧
+      ∃ n, st.ctr ≤ n ∧ st'.ctr = n + 1 ∧ i = cfg.gen n := by
+  unfold newId at h
+  split at h
+  · cases h
+  · rename_i j c hr
+    cases h
+    obtain ⟨h1, n, hn, hc, hi⟩ := regenLoop_spec hr
+    exact ⟨h1, rfl, rfl, n, hn, hc, hi⟩
+
+theorem ensureLoaded_spec {st : St} {s s' : Sess} (h : ensureLoaded st s = some s') :
+    s'.id = s.id ∧ s'.loaded = true ∧ s'.reads = s.reads ∧ s'.cookieExpired = s.cookieExpired ∧
+      (s.loaded = true → s' = s) ∧ (s.loaded = false → loadData st s.id = some s'.data) := by
+  unfold ensureLoaded at h
+  split at h
+  · rename_i hl
+    cases h
+    exact ⟨rfl, hl, rfl, rfl, fun _ => rfl, fun h => by rw [hl] at h; cases h⟩
+  · rename_i hl
+    split at h
+    · cases h
+    · rename_i d hd
+      cases h
+      exact ⟨rfl, rfl, rfl, rfl, fun h => absurd h hl, fun _ => hd⟩
+
+/-- Induction principle over the statements of a handler: an invariant of `(store state, session
+    object)` kept by every statement holds when the handler ends (normally or by an exception). -/
+theorem runHops_induct {cfg : Cfg} (P : St → Sess → Prop) (hs : List HOp)
+    (hstep : ∀ st s h, h ∈ hs → P st s → P (hop cfg st s h).st (hop cfg st s h).sess)
+    (st : St) (s : Sess) (h0 : P st s) :
+    P (runHops cfg st s hs).st (runHops cfg st s hs).sess := by
+  induction hs generalizing st s with
+  | nil => exact h0
+  | cons h hs ih =>
+    simp only [runHops]
+    have h1 := hstep st s h List.mem_cons_self h0
     split
-    · exact ih
-    · simp only [lookup]; split
-      · contradiction
-      · exact ih
+    · rename_i st' s' heq
+      rw [heq] at h1
+      exact ih (fun st s h' hm hp => hstep st s h' (List.mem_cons_of_mem _ hm) hp) st' s' h1
+    · rename_i e st' s' heq
+      rw [heq] at h1
+      exact h1
+
+/-! ### C14_no_fixation -/
+
+/-- Where the id of the session object comes from: the presented cookie, and then the store held it
+    before the request; or the id source, drawn during this request. -/
+def Origin (cfg : Cfg) (st0 : St) (ck : Cookie) (st : St) (s : Sess) : Prop :=
+  st0.ctr ≤ st.ctr ∧
+  ((Cookie.presented ck = some s.id ∧ has st0.store s.id = true) ∨
+   (∃ n, st0.ctr ≤ n ∧ n < st.ctr ∧ s.id = cfg.gen n))
+
+theorem initSess_spec {cfg : Cfg} {st st' : St} {ck : Cookie} {s : Sess}
+    (h : initSess cfg st ck = .ok (s, st')) :
+    st'.store = st.store ∧ st'.now = st.now ∧ s.data = [] ∧ s.loaded = false ∧ s.reads = [] ∧
+      s.cookieExpired = false ∧ st.ctr ≤ st'.ctr ∧
+      ((Cookie.presented ck = some s.id ∧ has st.store s.id = true ∧ st' = st) ∨
+       (has st.store s.id = false ∧ ∃ n, st.ctr ≤ n ∧ n < st'.ctr ∧ s.id = cfg.gen n)) := by
+  have fresh : ∀ {i st'}, newId cfg st = some (i, st') →
+      st'.store = st.store ∧ st'.now = st.now ∧ st.ctr ≤ st'.ctr ∧
+        (has st.store i = false ∧ ∃ n, st.ctr ≤ n ∧ n < st'.ctr ∧ i = cfg.gen n) := by
+    intro i st' hn
+    obtain ⟨h1, h2, h3, n, hn1, hn2, hn3⟩ := newId_spec hn
+    exact ⟨h2, h3, by omega, h1, n, hn1, by omega, hn3⟩
+  cases ck with
+  | none =>
+    simp only [initSess] at h
+    split at h
+    · cases h
+    · rename_i i st1 hn
+      cases h
+      obtain ⟨a, b, c, d⟩ := fresh hn
+      exact ⟨a, b, rfl, rfl, rfl, rfl, c, Or.inr d⟩
+  | id c =>
+    simp only [initSess] at h
+    split at h
+    · rename_i hh
+      cases h
+      exact ⟨rfl, rfl, rfl, rfl, rfl, rfl, Nat.le_refl _, Or.inl ⟨rfl, hh, rfl⟩⟩
+    · split at h
+      · cases h
+      · rename_i i st1 hn
+        cases h
+        obtain ⟨a, b, c, d⟩ := fresh hn
+        exact ⟨a, b, rfl, rfl, rfl, rfl, c, Or.inr d⟩
+  | escaping c =>
+    simp only [initSess] at h
+    split at h
+    · cases h
+    · split at h
+      · rename_i hh
+        cases h
+        exact ⟨rfl, rfl, rfl, rfl, rfl, rfl, Nat.le_refl _, Or.inl ⟨rfl, hh, rfl⟩⟩
+      · split at h
+        · cases h
+        · rename_i i st1 hn
+          cases h
+          obtain ⟨a, b, c, d⟩ := fresh hn
+          exact ⟨a, b, rfl, rfl, rfl, rfl, c, Or.inr d⟩
+
+theorem hop_origin {cfg : Cfg} {st0 : St} {ck : Cookie} (st : St) (s : Sess) (h : HOp)
+    (hp : Origin cfg st0 ck st s) :
+    Origin cfg st0 ck (hop cfg st s h).st (hop cfg st s h).sess := by
+  obtain ⟨hc, ho⟩ := hp
+  have keep : ∀ s' : Sess, s'.id = s.id → Origin cfg st0 ck st s' := by
+    intro s' hid
+    refine ⟨hc, ?_⟩
+    rw [hid]
+    rcases ho with h | ⟨n, a, b, c⟩
+    · exact Or.inl h
+    · exact Or.inr ⟨n, a, b, c⟩
+  cases h with
+  | read =>
+    simp only [hop]
+    split
+    · exact keep s rfl
+    · rename_i s' hs'
+      exact keep _ (ensureLoaded_spec hs').1
+  | write k v =>
+    simp only [hop]
+    split
+    · exact keep s rfl
+    · rename_i s' hs'
+      exact keep _ (ensureLoaded_spec hs').1
+  | delKey k =>
+    simp only [hop]
+    split
+    · exact keep s rfl
+    · rename_i s' hs'
+      exact keep _ (ensureLoaded_spec hs').1
+  | clear =>
+    simp only [hop]
+    split
+    · exact keep s rfl
+    · rename_i s' hs'
+      exact keep _ (ensureLoaded_spec hs').1
+  | regenerate =>
+    simp only [hop]
+    split
+    · refine ⟨hc, ?_⟩
+      rcases ho with h | ⟨n, a, b, c⟩
+      · exact Or.inl h
+      · exact Or.inr ⟨n, a, b, c⟩
+    · rename_i i st2 hn
+      obtain ⟨_, _, _, n, hn1, hn2, hn3⟩ := newId_spec hn
+      simp only [HRes.st, HRes.sess]
+      simp only at hn1
+      exact ⟨by omega, Or.inr ⟨n, by omega, by omega, hn3⟩⟩
+  | delete =>
+    simp only [hop]
+    split
+    · refine ⟨hc, ?_⟩
+      rcases ho with h | ⟨n, a, b, c⟩
+      · exact Or.inl h
+      · exact Or.inr ⟨n, a, b, c⟩
+    · refine ⟨hc, ?_⟩
+      rcases ho with h | ⟨n, a, b, c⟩
+      · exact Or.inl h
+      · exact Or.inr ⟨n, a, b, c⟩
+  | expire => exact keep _ rfl
+
+/-- **No fixation.**  Whatever the store, the cookie and the handler: the id in the response cookie is
+    the presented one only if the store held it before the request; otherwise it was drawn from the id
+    source during this request. -/
+theorem C14_no_fixation (cfg : Cfg) (st : St) (ck : Cookie) (hops : List HOp) (i : Id)
+    (h : (request cfg st ck hops).2.cookie = some i) :
+    (Cookie.presented ck = some i ∧ has st.store i = true) ∨
+    (∃ n, st.ctr ≤ n ∧ n < (request cfg st ck hops).1.ctr ∧ i = cfg.gen n) := by
+  unfold request at h ⊢
+  split at h
+  · cases h
+  · rename_i s0 st0 hi
+    obtain ⟨hs, _, _, _, _, _, hc, ho⟩ := initSess_spec hi
+    have h0 : Origin cfg st ck st0 s0 := by
+      refine ⟨hc, ?_⟩
+      rcases ho with ⟨a, b, _⟩ | ⟨_, n, a, b, c⟩
+      · exact Or.inl ⟨a, b⟩
+      · exact Or.inr ⟨n, a, b, c⟩
+    have hfin := runHops_induct (cfg := cfg) (Origin cfg st ck) hops
+      (fun st s h _ hp => hop_origin st s h hp) st0 s0 h0
+    split at h
+    · rename_i st1 s1 hr
+      rw [hr] at hfin
+      simp only [HRes.st, HRes.sess] at hfin
+      simp only at h
+      cases h
+      have hsave : (saveSess cfg st1 s1).ctr = st1.ctr := by
+        unfold saveSess; split <;> rfl
+      rcases hfin.2 with h | ⟨n, a, b, c⟩
+      · exact Or.inl h
+      · exact Or.inr ⟨n, a, by simp only [hsave]; exact b, c⟩
+    · rename_i e st1 s1 hr
+      rw [hr] at hfin
+      simp only [HRes.st, HRes.sess] at hfin
+      simp only at h
+      cases h
+      rcases hfin.2 with h | ⟨n, a, b, c⟩
+      · exact Or.inl h
+      · exact Or.inr ⟨n, a, b, c⟩
+
+/-- A presented id the store does not hold is never the response id, as long as the client cannot
+    name a value the id source yields (a 160-bit `urandom` collision is excluded, explicitly). -/
+theorem C14_unknown_id_replaced (cfg : Cfg) (st : St) (c : Id) (hops : List HOp)
+    (hunk : has st.store c = false) (hguess : ∀ n, cfg.gen n ≠ c) :
+    (request cfg st (.id c) hops).2.cookie ≠ some c := by
+  intro h
+  rcases C14_no_fixation cfg st (.id c) hops c h with ⟨_, h2⟩ | ⟨n, _, _, h3⟩
+  · rw [hunk] at h2; cases h2
+  · exact hguess n h3.symm
+
+/-- The id issued instead of a refused (or absent) cookie differs from every live id. -/
+theorem C14_fresh_not_live (cfg : Cfg) (st st' : St) (ck : Cookie) (s : Sess)
+    (h : initSess cfg st ck = .ok (s, st'))
+    (hnew : Cookie.presented ck ≠ some s.id) : has st.store s.id = false := by
+  obtain ⟨_, _, _, _, _, _, _, ho⟩ := initSess_spec h
+  rcases ho with ⟨a, _, _⟩ | ⟨a, _⟩
+  · exact absurd a hnew
+  · exact a
+
+/-- ... and so does the id drawn by `regenerate()`: it is not in the store at that moment. -/
+theorem C14_regenerate_fresh (cfg : Cfg) (st st' : St) (s s' : Sess)
+    (h : hop cfg st s .regenerate = .ok st' s') :
+    has st'.store s'.id = false ∧ lookup st'.store s.id = none := by
+  simp only [hop] at h
+  split at h
+  · cases h
+  · rename_i i st2 hn
+    obtain ⟨h1, h2, _, _⟩ := newId_spec hn
+    cases h
+    simp only at h1 h2
+    rw [h2]
+    exact ⟨h1, lookup_erase_self _ _⟩
+
+/-- For an injective id source (`os.urandom` never repeats) the regeneration loop always ends. -/
+theorem regen_total (cfg : Cfg) (st : St) (hinj : ∀ a b, cfg.gen a = cfg.gen b → a = b) :
+    (newId cfg st).isSome = true := by
+  unfold newId
+  have := regenLoop_isSome hinj (st.store.length + 1) st.store st.ctr (Nat.lt_succ_self _)
+  split
+  · rename_i hr; rw [hr] at this; cases this
+  · rfl
+
+example : (request { file := false, timeout := 2, gen := fun n => n + 1 } {} (.id 77) [.read]).2.cookie
+    = some 1 := by decide
+
+/-! ### C14_sweep_exact -/
+
+/-- **RAM sweep**: removes exactly the entries with `expiry ≤ now`. -/
+theorem C14_sweep_exact_ram (now : Nat) (s : Store) (i : Id) (r : Rec) :
+    (i, r) ∈ sweepRam now s ↔ (i, r) ∈ s ∧ ∀ d e, r = .good d e → ¬ e ≤ now :=
+  mem_sweepRam
+
+/-- **File sweep**: when no file makes `_load` raise, the loop is not left early and removes exactly
+    the readable files with `expiry < now`; unreadable (torn) files stay and do not stop it. -/
+theorem C14_sweep_exact_file (now : Nat) (s : Store) (hno : NoOther s) (i : Id) (r : Rec) :
+    (sweepFile now s).2 = false ∧
+    ((i, r) ∈ (sweepFile now s).1 ↔ (i, r) ∈ s ∧ ∀ d e, r = .good d e → ¬ e < now) :=
+  ⟨sweepFile_not_aborted hno, mem_sweepFile hno⟩
+
+/-- The one-tick boundary: at `now = expiry` `load` still returns the data, the file sweep keeps the
+    session, the RAM sweep removes it. -/
+theorem C14_boundary_tick (i : Id) (d : Data) (e : Nat) :
+    loadData { store := [(i, .good d e)], now := e } i = some d ∧
+    (sweepFile e [(i, .good d e)]).1 = [(i, .good d e)] ∧
+    sweepRam e [(i, .good d e)] = [] := by
+  refine ⟨?_, ?_, ?_⟩
+  · simp [loadData, lookup]
+  · simp [sweepFile]
+  · simp [sweepRam]
+
+/-! ### C14_torn_file -/
+
+theorem loadData_benign {st : St} (hb : NoOther st.store) (i : Id) : ∃ d, loadData st i = some d := by
+  unfold loadData
+  split
+  · exact ⟨_, rfl⟩
+  · split <;> exact ⟨_, rfl⟩
+  · rename_i hl
+    exact absurd (lookup_mem hl) (hb i)
+  · exact ⟨_, rfl⟩
+
+/-- Relative to the measured pickle contract, every proper prefix of a saved file is a record of a
+    class that `_load` turns into "no session". -/
+theorem torn_prefix_benign (P : Pickle (Data × Nat)) (hP : P.Contract) (d : Data) (e n : Nat)
+    (hn : n < (P.dumps (d, e)).length) :
+    fileRec P ((P.dumps (d, e)).take n) = .bad .eof ∨ fileRec P ((P.dumps (d, e)).take n) = .bad .unpickling := by
+  unfold fileRec
+  rcases hP.truncated (d, e) n hn with h | h <;> rw [h] <;> simp
+
+theorem whole_file_loads (P : Pickle (Data × Nat)) (hP : P.Contract) (d : Data) (e : Nat) :
+    fileRec P (P.dumps (d, e)) = .good d e := by
+  unfold fileRec
+  rw [hP.roundtrip]
+
+/-- **Torn file = absent session, not an error.**  For every pickle meeting the contract, every saved
+    record and every truncation offset: a request presenting the id of the torn file is answered
+    normally, its handler sees an empty session, and the file sweep runs to the end. -/
+theorem C14_torn_file (P : Pickle (Data × Nat)) (hP : P.Contract) (cfg : Cfg) (st : St) (i : Id)
+    (d : Data) (e n : Nat) (hn : n < (P.dumps (d, e)).length)
+    (hrec : lookup st.store i = some (fileRec P ((P.dumps (d, e)).take n)))
+    (hrest : NoOther st.store) :
+    (request cfg st (.id i) [.read]).2 = ⟨.ok, some i, false, [[]]⟩ ∧
+    (sweepFile st.now st.store).2 = false := by
+  refine ⟨?_, sweepFile_not_aborted hrest⟩
+  have hhas : has st.store i = true := by simp [has, hrec]
+  have hload : loadData st i = some [] := by
+    unfold loadData
+    rcases torn_prefix_benign P hP d e n hn with h | h <;> rw [hrec, h]
+  simp [request, initSess, hhas, runHops, hop, ensureLoaded, hload, saveSess]
+
+/-- a pickle meeting the contract exists (payload `Bool`, two-byte encoding): the hypothesis of
+    `C14_torn_file` is not vacuous. -/
+def toyPickle : Pickle Bool where
+  dumps b := [if b then 1 else 0, 46]
+  loads
+    | [] => .exc .eof
+    | [_] => .exc .eof
+    | [0, 46] => .ok false
+    | [1, 46] => .ok true
+    | _ => .exc .unpickling
+
+example : toyPickle.Contract where
+  roundtrip := by intro x; cases x <;> rfl
+  truncated := by
+    intro x n hn
+    cases x <;> simp [toyPickle] at hn ⊢ <;>
+      (match n, hn with
+       | 0, _ => simp
+       | 1, _ => simp)
 
 end CpProofs.C14
